@@ -13,7 +13,7 @@ try:
     r = subprocess.run(["git", "-C", wt, "apply", os.path.abspath(patch)])
     if r.returncode != 0:
         print("PATCH DOES NOT APPLY"); sys.exit(3)
-    env = dict(os.environ, VERIF_REPO=wt)
+    env = dict(os.environ, VERIF_REPO=wt, VERIF_EVIDENCE_DIR=os.path.join(HERE, "build", "evidence_mutants"))
     caught = []
     for pid in pids:
         r = subprocess.run([os.path.join(HERE, "check"), pid, "--budget", budget], env=env, capture_output=True, text=True, cwd=HERE)
